@@ -662,6 +662,17 @@ class Gen:
                     return f"{o}.{self.r.choice(['vals', 'hits'])}()[{i}]", "d"
                 return f"{s}[{i}].{self.r.choice(self.u.dbl_methods)}()", "d"
             self.q.feat.add("first")
+            if self.r.random() < 0.3 and self.cur_event is not None:
+                # First of a sequence whose elements live in VARIABLES of the loop body (a conditional's result, a count made per
+                # element): the value captured is the FIRST element's
+                j, t = self.q.var("j"), self.q.var("t")
+                m = self.r.choice(self.u.dbl_methods)
+                self.q.feat.add("first_of_variable")
+                if self.r.random() < 0.5:
+                    self.q.feat.add("ifexp")
+                    return f"{s}.Select(lambda {j}: ({j}.{m}() if {j}.{m}() > 1 else 0.5)).First()", "d"
+                c2, _ = self.coll(self.cur_event)
+                return f"{s}.Select(lambda {j}: {c2}.Where(lambda {t}: {t}.{m}() > {j}.{m}()).Count()).First()", "i"
             return f"{s}.First().{self.r.choice(self.u.dbl_methods)}()", "d"
         if "aggregate" in self.allow:
             s, kind = self.numseq(e, scope, d - 1)
@@ -939,6 +950,11 @@ SCALAR_GRAFTS_OBJ = {
     "obj_rdiv": "(1000.0/{o})",
     "obj_mod": "({o}%2)",
     "obj_pow": "({o}**2)",
+    # ... also when BOTH operands are objects of one type (nothing numeric anywhere)
+    "obj_obj_add": "({o}+{o})",
+    "obj_obj_sub": "({o}-{o})",
+    "obj_obj_mul": "({o}*{o})",
+    "vec_vec_add": "({o}.vals()+{o}.vals())",
     "getattribute": '{o}.getAttribute("x")',
     "kwargs": "{o}.pt(unit=1)",
     "slice": "{o}.vals()[0:2].Count()",
@@ -950,6 +966,8 @@ COLL_GRAFTS = {
     "coll_div": "({c}/2)",
     "coll_rdiv": "(1000.0/{c})",
     "coll_mod": "({c}%2)",
+    "coll_coll_sub": "({c}-{c})",
+    "coll_coll_mul": "({c}*{c})",
     # the bank of a collection call is a string CONSTANT: an expression in its place (even one the translator can render:
     # a negated number, arithmetic, a count) is a malformed call
     "bank_negated_number": "BANK:-1",
